@@ -166,7 +166,7 @@ def r2(c):
         detail = '%d callback calls' % len(cb)
         if ok:
             oc = q.outcomes(b, cb[0])
-            some, none = oc.get('Some', []), oc.get('None', [])
+            some, none = oc.get('Some', []) or oc.get('success', []), oc.get('None', []) or oc.get('failure', [])
             conv = [cs for cs in b.calls(F + 'WriteResult::convert_to_result')]
             xs = q.exits(b)
             some_x = [x for x in xs if any(q.dom(b, e, x['node']) for e in some)]
@@ -175,7 +175,7 @@ def r2(c):
             if ok1:
                 s = q.sem(b, conv[0].args[0])
                 ok1 = s.kind == 'call' and s.cs is cb[0] and q.has_success(s.proj)
-            ok2 = bool(none_x) and all(x['kind'] == 'agg' and x['variant'] == 'Err' and q.agg_variant_of(b, x['rv']['a'][0]) == (EXC_, 'IllegalFunction') for x in none_x)
+            ok2 = bool(none_x) and all(q.exit_error(b, x) == ('variant', (EXC_, 'IllegalFunction')) for x in none_x)      # Err(IllegalFunction) / ok_or(IllegalFunction)?
             ok = ok1 and ok2 and len(some_x) + len(none_x) == len(xs)
             detail = 'Some-exits %s, None-exits %s' % ([x['kind'] for x in some_x], [x['kind'] for x in none_x])
             # arguments pass through
